@@ -177,17 +177,17 @@ Proof.
   rewrite (forallb_fst (isubs sc)
     (fun i => negb (stays sc i) ||
        forallb (fun e2 => forallb (fun x => memZ x (vals ob i))
-                                  (between (vals ob i) (vals ob (fst e2)))) (isubs sc))).
+                                  (between (open_vals sc ob i) (vals ob (fst e2)))) (isubs sc))).
   split.
   - intros H i j Hi Hj Hc x Hx. specialize (H i Hi). unfold stays in H. rewrite Hc in H.
     cbn [negb orb] in H.
     rewrite (forallb_fst (isubs sc)
-      (fun j => forallb (fun x => memZ x (vals ob i)) (between (vals ob i) (vals ob j)))) in H.
+      (fun j => forallb (fun x => memZ x (vals ob i)) (between (open_vals sc ob i) (vals ob j)))) in H.
     specialize (H j Hj). rewrite forallb_forall in H. apply memZ_In. exact (H x Hx).
   - intros H i Hi. unfold stays. destruct (cancel_step sc i) as [s|] eqn:Hc; [reflexivity|].
     cbn [negb orb].
     apply (forallb_fst (isubs sc)
-      (fun j => forallb (fun x => memZ x (vals ob i)) (between (vals ob i) (vals ob j)))).
+      (fun j => forallb (fun x => memZ x (vals ob i)) (between (open_vals sc ob i) (vals ob j)))).
     intros j Hj. apply forallb_forall. intros x Hx. apply memZ_In. exact (H i j Hi Hj Hc x Hx).
 Qed.
 
